@@ -6,6 +6,7 @@ props = [json.loads(l) for l in open(os.path.join(V, "properties.jsonl"))]
 
 ENGINES = {
  "task": ("harness/task.cpp", "exhaustive ordering enumerator on the real promise/task under ASan/UBSan/LSan with counters"),
+ "sasl": ("harness/sasl.cpp", "SaslManager / Sasl2Manager / QXmppSaslClient behind a mock SendDataInterface, driven by JSON lines; Python reference choice function and RFC implementations"),
  "stun": ("harness/stun.cpp", "QXmppStunMessage encode/decode + HMAC/CRC helpers driven by JSON lines; Python hmac/zlib oracle"),
 }
 CHECKS = {
@@ -18,6 +19,14 @@ CHECKS = {
    note="Python hashlib/hmac/zlib trusted; generated attribute values are RFC-conforming ones; sanitizer red-zone limits",
    tech="runtime monitoring: differential oracle (Python hmac/zlib) + bit-flip fault injection + sanitizer fuzzing (ASan/UBSan)"),
 }
+CHECKS["C05"] = dict(engine="sasl", cat="exploration",
+   text="the real SaslManager and Sasl2Manager are asked to negotiate for every offered subset of a 12-name universe x 64 disabled sets x 13 preferred mechanisms x 6 credential states (SASL, SASL2 with and without FAST; thorough: all 4096 subsets = 6.1e7 evaluations, quick: seeded slice + singletons/pairs) plus random offers over 29 names with duplicates and garbled names; the emitted mechanism or the mismatch error is compared with a 30-line Python reference written from the statement",
+   note="reference = our reading of the statement's order; managers run behind a mock socket",
+   tech="runtime monitoring: differential oracle (Python reference choice function) over exhaustively enumerated configurations, under ASan/UBSan")
+CHECKS["C06"] = dict(engine="sasl", cat="exploration",
+   text="Python implementations of RFC 5802/7677, 2831, 4616 and XEP-0484 generate complete exchanges (honest, 15 corrupted SCRAM server variants, DIGEST-MD5 variants, re-logins of the same account with another password in one process) that are replayed on the real mechanism objects byte for byte; 10 server message sequences through SaslManager/Sasl2Manager decide 'success reported => valid server signature was delivered'",
+   note="Python hashlib/hmac/stringprep trusted; credentials restricted to SASLprep-identity strings; DIGEST-MD5 ISO 8859-1 re-encoding rule not judged",
+   tech="runtime monitoring: differential oracle (independent Python RFC implementations) + misbehaving-server sequences, under ASan/UBSan")
 REASON_TODO = "check not built yet in this session (planned, see DESIGN.md §2)"
 
 def main():
